@@ -89,7 +89,7 @@ func runC18(e *Env) {
 					if !isAdd || core.CalleeName(add) != "time.Time.Add" || !isFieldLoadNamed(core.Arg(add, 1), "duration") {
 						return core.CondMatch{}
 					}
-					if la, isLA := core.Arg(add, 0).(*ssa.Call); !isLA || core.CalleeName(la) != "net/monitor/inactivity.Monitor.LastActivity" {
+					if !isLastActivity(core.Arg(add, 0)) {
 						return core.CondMatch{}
 					}
 					return core.CondMatch{Match: true, Branch: true}
@@ -390,7 +390,7 @@ func checkKeepAlivePerConn(e *Env, rule string) {
 	for _, g := range e.P.SrcFuncs(false) {
 		for range core.CallsNamed(g, "net/monitor/inactivity.NewKeepAlive") {
 			n++
-			if g.Parent() == nil {
+			if g.Parent() == nil && !isMonitorFactory(g) {
 				okPer = false
 			}
 		}
@@ -490,4 +490,63 @@ func failCounterResets(g *ssa.Function) []ssa.CallInstruction {
 		k, isK := core.ConstInt(core.Arg(ci, 1))
 		return ok && fl == "numFails" && strings.HasSuffix(n, ".Store") && isK && k == 0
 	})
+}
+
+// isLastActivity: v is the monitor's recorded activity time – LastActivity() or the load of the lastActivity holder written out
+// (`t, _ := m.lastActivity.Load().(time.Time)`).
+func isLastActivity(v ssa.Value) bool {
+	v = core.Resolve(v)
+	if c, ok := v.(*ssa.Call); ok && core.CalleeName(c) == "net/monitor/inactivity.Monitor.LastActivity" {
+		return true
+	}
+	for d := 0; d < 4; d++ {
+		switch x := v.(type) {
+		case *ssa.Extract:
+			v = x.Tuple
+		case *ssa.TypeAssert:
+			v = x.X
+		case *ssa.UnOp:
+			v = x.X
+		case *ssa.Call:
+			n := core.CalleeName(x)
+			if strings.HasPrefix(n, "sync/atomic.") && strings.HasSuffix(n, ".Load") && strings.HasSuffix(tableOfAddr(core.Arg(x, 0)), ".lastActivity") {
+				return true
+			}
+			return false
+		default:
+			return false
+		}
+	}
+	return false
+}
+
+// isMonitorFactory: a named function of the shape of the per-connection factory (no parameters, one InactivityMonitor result) that is
+// never called directly – it is only installed as the factory value.
+func isMonitorFactory(g *ssa.Function) bool {
+	sig := g.Signature
+	if sig.Recv() != nil || sig.Params().Len() != 0 || sig.Results().Len() != 1 || !strings.HasSuffix(core.TypeName(sig.Results().At(0).Type()), "InactivityMonitor") {
+		return false
+	}
+	return len(core.SitesOf(g)) == 0 && !calledDirectly(g)
+}
+
+func calledDirectly(g *ssa.Function) bool {
+	found := false
+	if g.Pkg == nil {
+		return false
+	}
+	for _, m := range g.Pkg.Members {
+		fn, ok := m.(*ssa.Function)
+		if !ok {
+			continue
+		}
+		for _, h := range core.WithAnon(fn) {
+			core.InstrsOwn(h, func(in ssa.Instruction) {
+				if c, isC := in.(ssa.CallInstruction); isC && c.Common().StaticCallee() == g {
+					found = true
+				}
+			})
+		}
+	}
+	return found
 }
